@@ -88,6 +88,7 @@ cocls::async<void> g_async_step(Gen &g, int style, int arg, long &item, std::ato
             if (b) item = g.value();
         }
     } catch (const vf::test_exc &e) { item = -1000 - e.code; }
+    catch (...) { item = -888888; } // an exception the body never threw: mismatch for the oracle
     done.store(1, std::memory_order_release);
 }
 
@@ -136,6 +137,7 @@ void g_consume(g_world &W, Gen &g, vf::rng r, bool allow_sync, bool helper_resol
                 }
                 }
             } catch (const vf::test_exc &e) { item = -1000 - e.code; }
+            catch (...) { item = -888888; }
         }
         W.got.push_back(item);
         if (item < 0) break; // first end-of-sequence / exception: stop calling (what happens afterwards is not part of the statement)
